@@ -92,7 +92,7 @@ def _d(seed, label):
     return int.from_bytes(hashlib.sha256(b"c19/%d/%s" % (seed, label.encode())).digest(), "big") % (M.N - 2) + 1
 
 
-OPS = ["sm2_keygen", "sm2_sign", "sm2_sign_ctx", "sm2_decrypt", "sm2_decrypt_bad", "sm2_ecdh", "sm2_import_der", "sm2_import_bad", "sm2_import_mismatch", "tls_ctx_keys", "tls_ctx_keys", "hex_key_bad",
+OPS = ["sm2_keygen", "sm2_sign", "sm2_sign_ctx", "sm2_decrypt", "sm2_decrypt_bad", "sm2_ecdh", "sm2_import_der", "sm2_import_bad", "sm2_import_mismatch", "tls_ctx_keys", "tls_ctx_keys", "hex_key_bad", "tlcp_cke_badlen", "tlcp_cke_badlen",
        "pkcs8_open", "pkcs8_wrong_password", "sm9_sign", "sm9_decrypt", "sm9_keygen",
        "hs_tlcp", "hs_tls12", "hs_tls13", "hs_tlcp_mutual", "hs_tls12_mutual", "hs_tls13_mutual",
        "hs_tlcp_untrusted", "hs_tls12_untrusted", "hs_tls13_untrusted", "hs_tls12_badclient",
@@ -323,6 +323,30 @@ def ops(case, ctx):
                         dll.vh_fclose(fp)
                     if r == 1:
                         ctx.note("mismatch-imported")      # C12's business; the error path was not reached in this case
+                elif op == "tlcp_cke_badlen":
+                    # a TLCP client (scripted, vlib/peer12.py) whose ClientKeyExchange wraps a value that is not 48 bytes long under the server's
+                    # encryption certificate: the server decrypts it with its private key before it can refuse it
+                    from vlib import peer12 as S12
+                    L = [16, 32, 47, 49, 64, 1, 128][seed % 7]
+                    wrapped = hashlib.shake_128(b"c19 cke %d" % seed).digest(L)
+                    secrets = {"value wrapped in ClientKeyExchange (decrypted by the server)": wrapped}
+                    orig = S12.ScriptedClient._cke
+
+                    def bad_cke(self):
+                        pub = S12.cert_pubkey(self.server_certs[1]) if len(self.server_certs) > 1 else None
+                        if pub is None:
+                            raise S12.Stop("cannot", "no encryption certificate from the server")
+                        self.derive((wrapped + bytes(48))[:48])
+                        self.pms_known = True
+                        return S12.u16(S12.sm2_encrypt(pub, wrapped, self.rng))
+                    S12.ScriptedClient._cke = bad_cke
+                    try:
+                        res = S12.run(ctx.variant, "tlcp", "server" if seed & 8 else "server-noauth", "honest" if seed & 8 else "honest-noauth",
+                                      inst=seed % 3, n_inter=(seed >> 4) & 1, seed=seed, idle=6.0)
+                    finally:
+                        S12.ScriptedClient._cke = orig
+                    if res.get("lib") == 1:
+                        ctx.note("cke-badlen-completed")
                 elif op == "hex_key_bad":
                     # key material given as hex text (what the command line tools do with -key / -iv) with a typing error: odd length or a
                     # character outside [0-9a-fA-F]; the refusal must not echo the text
